@@ -122,7 +122,7 @@ impl GWorld {
                 other => return Err(Stop::Inconclusive(format!("get_consumer_group: {other:?}"))),
             };
             let got: BTreeSet<u32> = gd.members.iter().map(|m| m.id).collect();
-            if got == expected || !wait_for_disconnect || tries >= 200 {
+            if got == expected || !wait_for_disconnect || tries >= 1000 {
                 break gd;
             }
             // the server notices a dropped socket on its next read: bounded wait, counted in retries
